@@ -1,3 +1,7 @@
 import Gittuf.Props.C07
+import Gittuf.Proofs.Loop
 #print axioms Gittuf.World.C07_fix_is_unskipped_treesame
 #print axioms Gittuf.World.C07_intermediates_skipped
+#print axioms Gittuf.World.lookForFix_partition
+#print axioms Gittuf.World.lookForFix_sub
+#print axioms Gittuf.World.relLoop_sound_gen
